@@ -16,6 +16,8 @@ def main():
         gen_all.main()
     except ImportError:
         pass
+    import gen_main
+    gen_main.main()
     # root module = every model, lemma, generated table and property file present
     lean = common.LEAN
     mods = []
